@@ -30,6 +30,9 @@ mod c17;
 
 use report::{Coverage, Reporter, Tier};
 
+#[global_allocator]
+static GLOBAL: c19::CapAlloc = c19::CapAlloc;
+
 fn usage() -> ! {
     eprintln!("usage: verif-mc <C01..C20> <quick|thorough> [--replay <file>] [--list-signatures]");
     std::process::exit(2);
@@ -37,6 +40,10 @@ fn usage() -> ! {
 
 fn main() {
     let args: Vec<String> = std::env::args().skip(1).collect();
+    if args.first().map(|s| s.as_str()) == Some("worker") {
+        c19::worker_main();
+        return;
+    }
     if args.len() < 2 {
         usage();
     }
